@@ -121,6 +121,9 @@ func build(v variant) *explore.Scenario {
 					if strings.HasSuffix(e, ":12") {
 						nodes = []uint64{1, 2}
 					}
+					if strings.HasSuffix(e, ":177") {
+						nodes = []uint64{1, 77} // a replica that has left the cluster: no address for it
+					}
 					g.log <- createEntry(n, nodes, v.repl)
 				} else {
 					g.log <- deleteEntry(n)
@@ -196,7 +199,13 @@ func build(v variant) *explore.Scenario {
 						role = "allocator-loop"
 						idle = strings.HasSuffix(fn, "(*Allocator).run")
 					default:
-						continue // partition raft threads idle on their own selects
+						// partition raft threads idle on their own selects; one that waits for a lock at quiescence,
+						// after time has passed, waits for good
+						if k := t.Kind(); k == vrt.OpLock || k == vrt.OpRLock || k == vrt.OpWLock {
+							role = "raft-thread"
+							break
+						}
+						continue
 					}
 					if !idle {
 						wedged = append(wedged, fmt.Sprintf("%s in %s on %s", role, strings.TrimPrefix(fn, "storage."), t.Kind()))
@@ -240,6 +249,7 @@ func main() {
 		{name: "node-added-during-create-underreplicated", script: []string{"create:1:1"}, membership: []member{add(3)}, repl: 2},
 		{name: "node-removed-during-create-delete", script: []string{"create:1:12", "delete:1"}, membership: []member{rem(2)}, repl: 2},
 		{name: "add-and-remove-during-create-create-delete", script: []string{"create:1:1", "create:2:1", "delete:1"}, membership: []member{add(3), rem(2)}, repl: 2, maxQ: 1},
+		{name: "create-with-a-replica-that-has-no-address", script: []string{"create:1:177", "create:2:1"}, repl: 2},
 		{name: "node-removed-vs-first-dial", script: []string{"create:1:1"}, membership: []member{rem(2)}, dial: []uint64{2}, repl: 1},
 		{name: "node-added-and-removed-vs-first-dials", script: []string{"create:1:1"}, membership: []member{add(3), rem(3)}, dial: []uint64{3, 2}, repl: 1, maxQ: 1},
 		{name: "restart-burst-of-11-node-additions", script: []string{"create:1:1", "create:2:1"}, membership: burst, repl: 1, maxQ: 1},
